@@ -38,6 +38,10 @@ OPS = [
     ('a**2', lambda a, b: a ** 2, lambda x, y: x * x, 'un'),
     ('a**3', lambda a, b: a ** 3, lambda x, y: x * x * x, 'un'),
     ('a**=2', lambda a, b: operator.ipow(a, 2), lambda x, y: x * x, 'uninp'),
+    ('a**4', lambda a, b: a ** 4, lambda x, y: x * x * x * x, 'un'),
+    ('a**5', lambda a, b: a ** 5, lambda x, y: x * x * x * x * x, 'un'),
+    ('a**6', lambda a, b: a ** 6, lambda x, y: (x * x * x) * (x * x * x), 'un'),
+    ('a**=6', lambda a, b: operator.ipow(a, 6), lambda x, y: (x * x * x) * (x * x * x), 'uninp'),
     ('a/c', lambda a, b: a / b, None, 'div'),
     ('a/=c', lambda a, b: operator.itruediv(a, b), None, 'divinp'),
     ('a+=a', lambda a, b: operator.iadd(a, a), lambda x, y: x + x, 'alias'),
@@ -54,6 +58,8 @@ def _labels(tn, n):
 
 def _universes(tn, bk, labs, shape=None):
     l0, l1 = labs[0], labs[1]
+    if shape == 'small':       # two-term operands for the expensive operators (high powers)
+        return [(l0,), (l1,)], [(l1,), ()]
     if shape == 'quadprod':
         # quadratic operands whose products collapse back to degree <= 2 (idempotent booleans / involutive spins)
         l2 = labs[2]
@@ -96,7 +102,7 @@ def make_binop(ctx, tn, bk, ob=None, nlab=2, ops=None, shape=None):
     ca = {k: ctx.real_var('a%d' % i) for i, k in enumerate(Ua)}
     cb = {k: ctx.real_var('b%d' % i) for i, k in enumerate(Ub)}
     sc = ctx.real_var('s')
-    opl = [o for o in OPS if ops is None or o[0] in ops]
+    opl = [o for o in OPS if (ops is None and o[0] not in ('a**4', 'a**5', 'a**6', 'a**=6')) or (ops is not None and o[0] in ops)]
     sel = ctx.int_var('op', 0, len(opl) - 1)
     ev = O.spin_poly if spin else O.bool_poly
 
@@ -147,7 +153,7 @@ def make_binop(ctx, tn, bk, ob=None, nlab=2, ops=None, shape=None):
             legit = False
             if tn in O.DEG2_TYPES and ('*' in name):
                 Ap = res['Apoly']; Bp = res['Bpoly'] if res['Bpoly'] is not None else Ap
-                if name in ('a*a', 'a*=a', 'a**2', 'a**3', 'a**=2') or res['isnum']:
+                if name in ('a*a', 'a*=a', 'a**2', 'a**3', 'a**=2', 'a**4', 'a**5', 'a**6', 'a**=6') or res['isnum']:
                     Bp = Ap
                 legit = any(len(O.canon_key(tuple(ka) + tuple(kb), spin)) > 2 for ka in Ap for kb in Bp)
                 if name == 'a**3':
@@ -315,6 +321,8 @@ def jobs(tier, seed):
     for tn in O.DEG2_TYPES + (['PUSO', 'PUBO'] if tier != 'quick' else []):
         add('binop/%s/same/quadprod' % tn, 'make_binop', dict(tn=tn, bk='same', nlab=3, shape='quadprod',
                                                                  ops=['a*b', 'b*a', 'a*=b', 'a**2', 'a*a', 'a*=a', 'a**3']), 300 if tier == 'quick' else 1800)
+    for tn in (['PUBO', 'PUSO', 'QUBO', 'QUSOMatrix', 'PCBO'] if tier == 'quick' else allT):
+        add('binop/%s/same/small/highpow' % tn, 'make_binop', dict(tn=tn, bk='same', shape='small', ops=['a**4', 'a**5', 'a**6', 'a**=6']), 300 if tier == 'quick' else 1800)
     for a, b in pairs:
         # the other operand must use labels the first type accepts
         add('binop/%s/other=%s' % (a, b), 'make_binop', dict(tn=a, bk='other', ob=b, ops=['a+b', 'a-b', 'a*b', 'b+a', 'b-a', 'b*a', 'a+=b', 'a-=b', 'a*=b']),
@@ -322,3 +330,9 @@ def jobs(tier, seed):
     for tn in allT + ['dict', 'dict_spin']:
         add('value/%s' % tn, 'make_value', dict(tn=tn if tn != 'dict_spin' else 'dict_spin'), 300)
     return J
+
+
+def post(results, tier, seed):
+    """label-symbolic CrossHair lemmas on the real helper functions (auxiliary layer, see DESIGN.md 2.3)"""
+    from ..lemmas.run import as_extra
+    return as_extra('keys', ['lemma_pubomatrix_squash', 'lemma_pusomatrix_squash', 'lemma_pubo_squash', 'lemma_puso_squash'], 'C05', timeout=20 if tier == 'quick' else 60)
